@@ -19,6 +19,8 @@ CONSTANTS
   CachePutFails = TRUE
   CrashInCreate = TRUE
   IssuerEntries = {}
+  MaxTampers = 0
+  VerifyEdge = TRUE
   Stops = FALSE
 INVARIANTS PubAppendOnly
 
